@@ -94,6 +94,8 @@ fn gen_c07(r: &mut Rng, thorough: bool) -> Vec<Op> {
     let mut ops = Vec::new();
     // swarm: some runs concentrate on one parent register so that aliasing is exercised in depth
     let focus: Option<usize> = if r.chance(1, 2) { Some(r.usize(16)) } else { None };
+    // a quarter of the histories: somewhere on the way the machine runs to its end
+    let finish_at: Option<u64> = if r.chance(1, 4) { Some(r.below(n)) } else { None };
     for _ in 0..n {
         let reg = loop {
             let cand = r.pick(ALL_REGS);
@@ -114,6 +116,9 @@ fn gen_c07(r: &mut Rng, thorough: bool) -> Vec<Op> {
             crate::regs::View::X => 128,
         };
         let w = if r.chance(1, 12) { *r.pick(&[8u32, 16, 32, 64, 128]) } else { natural };
+        if finish_at == Some(ops.len() as u64) {
+            ops.push(Op::Finish);
+        }
         if r.chance(3, 5) {
             ops.push(Op::RegWrite { w, reg: reg.0.to_string(), val: hex(value_for(r, w)) });
         } else {
@@ -252,6 +257,9 @@ fn mem_ops(r: &mut Rng, l: &L, ops: &mut Vec<Op>, n: u64) {
                     0 => ops.push(Op::GuestPush { rsp, val: r.next() }),
                     1 => ops.push(Op::GuestPop { rsp }),
                     2 => ops.push(Op::GuestCall { rsp }),
+                    // (returns outnumber calls from the first one on: the shadow call stack runs empty)
+                    // (not with RSP + 8 == 0: that is the "top-level return" that ends a run on a machine without a stack)
+                    _ if rsp.wrapping_add(8) != 0 => ops.push(Op::GuestRet { rsp }),
                     _ => ops.push(Op::GuestPop { rsp }),
                 }
             }
